@@ -365,7 +365,7 @@ fn trace_event(x: &mut Exec, role: &str, step: &Value, ret: &str, snap: &str, ex
         o = o.fields(&e);
     }
     if x.measure_alloc {
-        o = o.int("abytes", allocs.iter().sum::<usize>() as i64).int("acount", allocs.len() as i64);
+        o = o.int("abytes", allocs.iter().sum::<usize>() as i64).int("acount", allocs.len() as i64).int("amax", allocs.iter().copied().max().unwrap_or(0) as i64);
         if let Some(p) = ptr_same {
             o = o.bool("ptr_same", p);
         }
